@@ -61,6 +61,8 @@ Section Run.
              identifier form used to look the name up in the bindings only) *)
           | EId x | EOutput (EId x) => match r with Ok v => Some (x, v) | _ => None end
           | EAssign x _ | EOutput (EAssign x _) => match r with Ok v => Some (x, v) | _ => None end
+          (* `output sum`: the identifier is a built-in name; it is recorded under its own text *)
+          | EBuiltin b | EOutput (EBuiltin b) => match r with Ok v => Some (builtin_name b, v) | _ => None end
           | _ => None
           end in
         match decl with
